@@ -411,6 +411,17 @@ func genInstr(rng *rand.Rand, env *exprEnv, o progOpts) item {
 		depth = 3
 	}
 	it.a = genOperand(rng, env, modes, depth)
+	if rng.Intn(30) == 0 {
+		// 32-bit boundary values, in several spellings
+		it.a.expr = [][]etok{
+			{{'o', "-"}, {'n', "2147483648"}},
+			{{'o', "-"}, {'n', "2147483647"}, {'o', "-"}, {'n', "1"}},
+			{{'n', "0"}, {'o', "-"}, {'n', "2147483648"}},
+			{{'n', "2147483647"}},
+			{{'o', "-"}, {'n', "2147483647"}},
+			{{'n', "2147483647"}, {'o', "+"}, {'n', "1"}},
+		}[rng.Intn(6)]
+	}
 	if rng.Intn(7) != 0 {
 		b := genOperand(rng, env, modes, depth)
 		it.b = &b
@@ -887,6 +898,30 @@ func genExpr(out *bufio.Writer, rng *rand.Rand, count int) int {
 			}
 			items = append(items, item{kind: 'Q', name: nm, expr: e})
 			names = append(names, nm)
+		}
+		if rng.Intn(4) == 0 {
+			depth := 5 + rng.Intn(40)
+			prev := ""
+			var chain []item
+			for d := 0; d < depth; d++ {
+				nm := ident(rng, used)
+				if prev == "" {
+					chain = append(chain, item{kind: 'Q', name: nm, expr: []etok{{'n', fmt.Sprint(1 + rng.Intn(9))}}})
+				} else if rng.Intn(3) == 0 {
+					chain = append(chain, item{kind: 'Q', name: nm, expr: []etok{{'t', prev}, {'o', "+"}, {'n', "1"}}})
+				} else {
+					chain = append(chain, item{kind: 'Q', name: nm, expr: []etok{{'t', prev}}})
+				}
+				prev = nm
+			}
+			if rng.Intn(2) == 0 { // defined in reverse order: every use is a forward use
+				for l, r := 0, len(chain)-1; l < r; l, r = l+1, r-1 {
+					chain[l], chain[r] = chain[r], chain[l]
+				}
+			}
+			items = append(items, chain...)
+			names = append(names, prev, prev, prev)
+			items = append(items, item{kind: 'A', expr: []etok{{'t', prev}}})
 		}
 		env := &exprEnv{rng: rng, names: names, big: true}
 		k := 1 + rng.Intn(3)
